@@ -1,5 +1,6 @@
 import MJ.Proofs.Path
 import MJ.Proofs.PathPlat
+import MJ.Proofs.PathRoutes
 /-!
 # C17 — the file-system loader never reads outside its base directory
 
@@ -21,6 +22,12 @@ instances) — `checked_segments_are_pushed_components`: the arguments of `push`
 pieces the filter looked at and the result's components (split on every separator of the
 platform) are the base's followed by those pieces.  Unix: unconditional.  Windows: for names
 without a drive-prefixed segment; `C17_windows_counterexample` shows what a segment `C:x` does.
+At the end: the engine's ROUTES (`MJ/Model/PathRoutes.lean`: `Environment::get_template`,
+`State::get_template` + `join_template_path` with an arbitrary callback, include / import /
+from-import / extends, lists of include choices) with `every_loader_call_passes_through_safe_join`
+and the row-by-row tie `name_flow_as_modelled`; the property's own statement `C17_full` over
+histories of link-free worlds, proved for the model (`C17_model`); and `C17_main`, whose two
+hypotheses (`AnswersAsModel`, `OsWalksTree`) are exactly what is not machine-checked about the code.
 -/
 namespace MJ.C17
 open MJ.Path MJ.PathPlat
@@ -41,10 +48,12 @@ def Confined (base name p : Str) : Prop :=
   ∀ (fs : FS) (start e : fs.Node), walk fs start (comps p) = some e →
     ∃ b, walk fs start (comps base) = some b ∧ Below fs b e
 
-/-- Full-strength statement: for every base and every template name, `safe_join` answers `None`
-    as soon as one segment is `.`, `..`, hidden or contains a backslash, and every path it does
-    answer is confined to the base. -/
-def C17_full : Prop :=
+/-- The statement about `safe_join` alone: for every base and every template name, `safe_join`
+    answers `None` as soon as one segment is `.`, `..`, hidden or contains a backslash, and every
+    path it does answer is confined to the base.  (The property's own statement — every entry
+    point, every history of file systems, "content of a file beneath the base" — is `C17_full`
+    at the end of this file.) -/
+def C17_safe_join_full : Prop :=
   ∀ base name : Str,
     (∀ s ∈ splitOn '/' name, (s = ['.'] ∨ s = dotdot ∨ s.head? = some '.' ∨ '\\' ∈ s) →
       safeJoin base name = none) ∧
@@ -137,7 +146,7 @@ theorem walk_stays_below (base name p : Str) (h : safeJoin base name = some p)
 example : walk freeFS [] (comps "/srv/t/a/b".toList) = some ["srv".toList, "t".toList, "a".toList, "b".toList] := by decide
 example : walk freeFS [] (comps "/srv/t/../../x".toList) = some ["x".toList] := by decide  -- `..` does leave
 
-theorem safe_join_confined : C17_full := by
+theorem safe_join_confined : C17_safe_join_full := by
   intro base name
   refine ⟨fun s hs hbad => escape_rejected base name s hs hbad, fun p h => ?_⟩
   obtain ⟨h1, h2, h3, h4⟩ := safe_join_segments base name p h
@@ -599,5 +608,323 @@ theorem path_producers_as_modelled :
     ("minijinja/loader.rs", "path_loader") ∈ MJ.Gen.c17PathProducers := by decide
 
 example : MJ.Gen.c17PathProducers.length ≥ 2 := by decide
+
+
+/-- what a function that touches paths does with them -/
+inductive PathRole where
+  /-- computes a path from (base, template name); no file-system access -/
+  | buildsPath
+  /-- hands a path to the file system and returns what it read -/
+  | readsFile
+  /-- registers a path given by the HOST with the change notifier: it never sees a template name,
+      reads no file and returns no content -/
+  | watchesHostPath
+  deriving DecidableEq, Repr
+
+/-- the classification of every path-touching function, with the reason -/
+def pathProducerRoles : List ((String × String) × PathRole × String) :=
+  [(("minijinja/loader.rs", "safe_join"), .buildsPath,
+      "modelled (safeJoin); every path the loader reads comes from here"),
+   (("minijinja/loader.rs", "path_loader"), .readsFile,
+      "modelled (pathLoader / Loader.load); the only reader; reads exactly safe_join's answer (loader_model_matches_source)"),
+   (("minijinja-autoreload/lib.rs", "watch_path"), .watchesHostPath,
+      "the host's path goes to notify's Watcher::watch and nowhere else (C17_WATCH_ARGS); called by no code of the crates; a notification only triggers a reload, which goes through the loader again"),
+   (("minijinja-autoreload/lib.rs", "unwatch_path"), .watchesHostPath,
+      "the host's path goes to notify's Watcher::unwatch and nowhere else (C17_WATCH_ARGS)")]
+
+/-- every path-touching function of the three crates has a role; exactly one of them reads files
+    (`path_loader`); the watchers sit in minijinja-autoreload, and their `path` parameter is
+    rebound once (`path.as_ref()`), handed to the notifier's `watch` / `unwatch` and mentioned
+    nowhere else (3 mentions: parameter, rebinding, argument); minijinja-contrib has no such
+    function at all. -/
+theorem path_producers_classified :
+    (MJ.Gen.c17PathProducers.all fun s => pathProducerRoles.any fun c => c.1 == s) = true ∧
+    ((pathProducerRoles.filter fun c => c.2.1 == .readsFile).map (·.1)) = [("minijinja/loader.rs", "path_loader")] ∧
+    ((pathProducerRoles.filter fun c => c.2.1 == .watchesHostPath).all fun c => c.1.1 == "minijinja-autoreload/lib.rs") = true ∧
+    (MJ.Gen.c17PathProducers.all fun s => !("minijinja-contrib".toList.isPrefixOf s.1.toList)) = true ∧
+    MJ.Gen.c17WatchArgs = [("watch_path", "path.as_ref()", "watcher.watch(path,mode)", 3),
+                           ("unwatch_path", "path.as_ref()", "watcher.unwatch(path)", 3)] := by decide
+
+example : pathProducerRoles.length = 4 := by decide
+
+/-! ### the engine's routes: every call of the loader passes through `safe_join` -/
+
+/-- rows of the regenerated flow table (`C17_NAME_FLOW`): file, function, call, argument text -/
+def rowEnvGet : String × String × String × String :=
+  ("environment.rs", "get_template", "self.templates.get", "name")
+def rowCallback : String × String × String × String :=
+  ("environment.rs", "join_template_path", "cb", "name,parent")
+def rowStoreCallsLoader : String × String × String × String :=
+  ("loader.rs", "get", "loader", "&name where name=name.into()")
+def rowIncludeCallsState : String × String × String × String :=
+  ("vm/mod.rs", "perform_include", "state.get_template", "name where name=ok!(choice.as_str()")
+def rowExtendsJoins : String × String × String × String :=
+  ("vm/mod.rs", "load_blocks", "state.env().join_template_path", "name,state.name()")
+def rowExtendsGets : String × String × String × String :=
+  ("vm/mod.rs", "load_blocks", "state.env().get_template",
+   "&joined where joined=state.env().join_template_path(name,state.name())")
+def rowStateGets : String × String × String × String :=
+  ("vm/state.rs", "get_template", "self.env().get_template", "&self.env().join_template_path(name,self.name())")
+def rowStateJoins : String × String × String × String :=
+  ("vm/state.rs", "get_template", "self.env().join_template_path", "name,self.name()")
+
+/-- the calls a name passes on its way from an entry to the store, in the source's terms -/
+def flowRows : Entry → List (String × String × String × String)
+  | .envGetTemplate => [rowEnvGet]
+  | .stateGetTemplate => [rowStateJoins, rowStateGets, rowEnvGet]
+  | .includeStmt => [rowIncludeCallsState, rowStateJoins, rowStateGets, rowEnvGet]
+  | .importStmt => [rowIncludeCallsState, rowStateJoins, rowStateGets, rowEnvGet]
+  | .fromImportStmt => [rowIncludeCallsState, rowStateJoins, rowStateGets, rowEnvGet]
+  | .extendsStmt => [rowExtendsJoins, rowExtendsGets, rowEnvGet]
+
+def allEntries : List Entry :=
+  [.envGetTemplate, .stateGetTemplate, .includeStmt, .importStmt, .fromImportStmt, .extendsStmt]
+
+/-- statement → instruction → fetching function, as `Entry` has it -/
+def stmtRoute : Entry → List (String × String × String)
+  | .includeStmt => [("codegen", "Stmt::Include", "Include"), ("vm", "Instruction::Include", "perform_include")]
+  | .importStmt => [("codegen", "Stmt::Import", "Include"), ("vm", "Instruction::Include", "perform_include")]
+  | .fromImportStmt => [("codegen", "Stmt::FromImport", "Include"), ("vm", "Instruction::Include", "perform_include")]
+  | .extendsStmt => [("codegen", "Stmt::Extends", "LoadBlocks"), ("vm", "Instruction::LoadBlocks", "load_blocks")]
+  | _ => []
+
+/-- **The routes of the model are the routes of the source** (tables `C17_NAME_FLOW`,
+    `C17_STMT_ROUTES`, regenerated on every run):
+    * every call in the engine by which a template name travels towards the loader — with its
+      receiver and its ARGUMENT TEXT — is a row of some `Entry`'s route, the one call of the loader
+      closure (`LoaderStore::get`, with the name the store was asked for) or the one call of the
+      path-join callback; and every such row exists in the source;
+    * on every route the last call is `Environment::get_template(name)` → `templates.get(name)`;
+    * a route contains a `join_template_path` call exactly when the model says the name is joined
+      (`Entry.joins`), and the joined result — nothing else — is what is fetched;
+    * include / import / from-import compile to `Include` → `perform_include`, extends to
+      `LoadBlocks` → `load_blocks`, and these two functions are called nowhere else. -/
+theorem name_flow_as_modelled :
+    (MJ.Gen.c17NameFlow.all fun r => r == rowStoreCallsLoader || r == rowCallback ||
+      allEntries.any fun e => (flowRows e).contains r) = true ∧
+    (allEntries.all fun e => (flowRows e).all fun r => MJ.Gen.c17NameFlow.contains r) = true ∧
+    MJ.Gen.c17NameFlow.contains rowStoreCallsLoader = true ∧ MJ.Gen.c17NameFlow.contains rowCallback = true ∧
+    (MJ.Gen.c17NameFlow.filter fun r => r.2.2.1 == "loader").length = 1 ∧
+    (allEntries.all fun e => (flowRows e).getLast? == some rowEnvGet) = true ∧
+    (allEntries.all fun e => e.joins == ((flowRows e).any fun r => r == rowStateJoins || r == rowExtendsJoins)) = true ∧
+    (allEntries.all fun e => (stmtRoute e).all fun r => MJ.Gen.c17StmtRoutes.contains r) = true ∧
+    (MJ.Gen.c17StmtRoutes.all fun r => allEntries.any fun e => (stmtRoute e).contains r) = true ∧
+    MJ.Gen.c17FetchFnCalls = 2 := by decide
+
+/-- `allEntries` lists every constructor of `Entry` -/
+theorem allEntries_complete (e : Entry) : e ∈ allEntries := by cases e <;> decide
+
+example : MJ.Gen.c17NameFlow.length ≥ 8 ∧ MJ.Gen.c17StmtRoutes.length ≥ 6 := by decide
+
+/-- **Every call of the loader passes through `safe_join`.**  Whatever the entry point
+    (`Environment::get_template`, `State::get_template`, include, import, from-import, extends, a
+    list of include choices), whatever the path-join callback of the host answers (ANY function of
+    the two names — `g.cb` is arbitrary), whatever the store already holds and whatever the file
+    system looks like: every path handed to the file system while the request is served is
+    `safe_join(configured base, n)` for a name `n` the store was asked for by that request, and
+    is confined to the configured base. -/
+theorem every_loader_call_passes_through_safe_join (g : Engine) (fs : Snapshot) (r : Req) (p : Str)
+    (hp : p ∈ g.fsReads fs r) :
+    ∃ n ∈ g.storeNames r, n ∈ g.loaderCalls fs r ∧ safeJoin g.env.loader.base n = some p ∧
+      Confined g.env.loader.base n p := by
+  simp only [Engine.fsReads, List.mem_flatMap] at hp
+  obtain ⟨n, hn, hr⟩ := hp
+  unfold Loader.reads at hr
+  cases hj : safeJoin g.env.loader.base n with
+  | none => simp [hj] at hr
+  | some q =>
+    simp only [hj, List.mem_singleton] at hr
+    subst hr
+    exact ⟨n, loaderCalls_sub_storeNames g fs r n hn, hn, hj, (safe_join_confined _ n).2 _ hj⟩
+
+/-- a callback that answers a climbing name, an include list whose first choice is missing -/
+example : (Engine.new "b".toList (some fun _ _ => "../../etc/passwd".toList)).fsReads emptyDisk
+    (.one .includeStmt "x".toList "p".toList) = [] := by decide
+example : (Engine.new "b".toList none).fsReads emptyDisk (.choices ["x".toList, "../y".toList, "z".toList] "p".toList)
+    = ["b/x".toList, "b/z".toList] := by decide
+example : (Engine.new "b".toList (some docJoin)).fsReads emptyDisk (.one .extendsStmt "../l.html".toList "a/c/p.html".toList)
+    = ["b/a/l.html".toList] := by decide
+example : (Engine.new "b".toList (some docJoin)).fsReads emptyDisk (.one .envGetTemplate "../l.html".toList "a/c/p.html".toList)
+    = [] := by decide
+
+/-- **Over any history of requests and file systems**, through any entry point and with any
+    callback: every source the engine ever answers is what some snapshot of the history held at
+    `safe_join(configured base, n)`, `n` one of the names that request asked the store for —
+    a path confined to the configured base. -/
+theorem engine_history_confined (dir : Str) (cb : Option JoinCb) (h : List (Snapshot × Req)) (s : Str)
+    (hs : LoadResult.found s ∈ (Engine.new dir cb).run h) :
+    ∃ x ∈ h, ∃ n ∈ (Engine.new dir cb).storeNames x.2, ∃ y ∈ h, ∃ p,
+      safeJoin dir n = some p ∧ y.1 p = .content s ∧ Confined dir n p := by
+  obtain ⟨h1, _⟩ := run_sourced dir (h.map (·.1)) h (Engine.new dir cb)
+    (fun x hx => List.mem_map.2 ⟨x, hx, rfl⟩) rfl (fun n s hm => by simp [Engine.new] at hm)
+  obtain ⟨x, hx, n, hn, fs, hfs, p, hp, hf⟩ := h1 s hs
+  obtain ⟨y, hy, rfl⟩ := List.mem_map.1 hfs
+  exact ⟨x, hx, n, hn, y, hy, p, hp, hf, (safe_join_confined dir n).2 p hp⟩
+
+/-- … and everything `Environment::templates()` lists after any such history is a source some
+    snapshot of the history held at `safe_join(configured base, its name)` -/
+theorem engine_templates_confined (dir : Str) (cb : Option JoinCb) (h : List (Snapshot × Req)) (n s : Str)
+    (hm : (n, s) ∈ ((Engine.new dir cb).after h).env.templates) :
+    ∃ y ∈ h, ∃ p, safeJoin dir n = some p ∧ y.1 p = .content s ∧ Confined dir n p := by
+  obtain ⟨_, h2⟩ := run_sourced dir (h.map (·.1)) h (Engine.new dir cb)
+    (fun x hx => List.mem_map.2 ⟨x, hx, rfl⟩) rfl (fun n s hm => by simp [Engine.new] at hm)
+  obtain ⟨fs, hfs, p, hp, hf⟩ := h2.store n s hm
+  obtain ⟨y, hy, rfl⟩ := List.mem_map.1 hfs
+  exact ⟨y, hy, p, hp, hf, (safe_join_confined dir n).2 p hp⟩
+
+example : ((Engine.new "b".toList none).after
+      [(oneFile "b/x".toList "inside".toList, .one .importStmt "x".toList "p".toList),
+       (emptyDisk, .one .envGetTemplate "y".toList [])]).env.templates = [("x".toList, "inside".toList)] := by decide
+
+/-- the second request is answered from the store although the file is gone; the callback's
+    climbing answer finds nothing -/
+example : (Engine.new "b".toList none).run
+      [(oneFile "b/x".toList "inside".toList, .one .importStmt "x".toList "p".toList),
+       (oneFile "x".toList "canary".toList, .choices ["y".toList, "x".toList] "p".toList)]
+    = [.found "inside".toList, .found "inside".toList] := by decide
+example : (Engine.new "b".toList (some fun n _ => "../".toList ++ n)).run
+      [(oneFile "b/../x".toList "canary".toList, .one .includeStmt "x".toList "p".toList)]
+    = [.missing] := by decide
+
+/-! ### the property's own statement -/
+
+/-- the world at one moment: a directory tree without symbolic links (the property sets them
+    aside), the root, the working directory, and what reading each node gives -/
+structure World where
+  fs : FS
+  root : fs.Node
+  cwd : fs.Node
+  file : fs.Node → ReadResult
+
+/-- where the resolution of a path string starts -/
+def World.start (w : World) (p : Str) : w.fs.Node := if isAbs p then w.root else w.cwd
+
+/-- `fs::read_to_string(p)` in that world: the path is resolved component by component -/
+def World.snapshot (w : World) : Snapshot := fun p =>
+  match walk w.fs (w.start p) (comps p) with
+  | none => .notFound
+  | some e => w.file e
+
+/-- `s` is the content of a file that lies in the directory the configured base designates in
+    that world, or beneath it -/
+def World.BeneathBase (w : World) (dir s : Str) : Prop :=
+  ∃ b e, walk w.fs (w.start dir) (comps dir) = some b ∧ Below w.fs b e ∧ w.file e = .content s
+
+/-- **C17, as the property states it.**  For every configured base, every path-join callback,
+    every history of requests — by the host (`Environment::get_template`, `State::get_template`)
+    or computed inside a template (include, a list of include choices, import, from-import,
+    extends), with ANY template name — while the world (directory tree, working directory, file
+    contents) changes arbitrarily between the requests: whatever source the engine answers is
+    the content of a file located in or beneath the directory the configured base designated in
+    one of the worlds of the history.  Every other answer is "missing" or "unreadable"
+    (`LoadResult` has no fourth case). -/
+def C17_full : Prop :=
+  ∀ (dir : Str) (cb : Option JoinCb) (h : List (World × Req)) (s : Str),
+    LoadResult.found s ∈ (Engine.new dir cb).run (h.map fun x => (x.1.snapshot, x.2)) →
+    ∃ x ∈ h, x.1.BeneathBase dir s
+
+theorem world_read_confined (w : World) (dir n p s : Str) (hc : Confined dir n p)
+    (hr : w.snapshot p = .content s) : w.BeneathBase dir s := by
+  unfold World.snapshot at hr
+  cases hw : walk w.fs (w.start p) (comps p) with
+  | none => simp [hw] at hr
+  | some e =>
+    simp only [hw] at hr
+    have hstart : w.start p = w.start dir := by simp only [World.start, hc.1]
+    rw [hstart] at hw
+    obtain ⟨b, hb, hbel⟩ := hc.2.2.2.2.2 w.fs (w.start dir) e hw
+    exact ⟨b, e, hb, hbel, hr⟩
+
+theorem C17_model : C17_full := by
+  intro dir cb h s hs
+  obtain ⟨_, _, n, _, y, hy, p, _, hf, hc⟩ := engine_history_confined dir cb _ s hs
+  obtain ⟨x, hx, rfl⟩ := List.mem_map.1 hy
+  exact ⟨x, hx, world_read_confined x.1 dir n p s hc hf⟩
+
+/-- a world over the free tree with one file -/
+def oneFileWorld (cwd at_ : List Str) (content : Str) : World :=
+  { fs := freeFS, root := [], cwd := cwd, file := fun e => if e = at_ then .content content else .notFound }
+
+example : (Engine.new "b".toList none).run
+      [((oneFileWorld ["w".toList] ["w".toList, "b".toList, "x".toList] "inside".toList).snapshot,
+        .one .includeStmt "x".toList "p".toList)] = [.found "inside".toList] := by decide
+example : (oneFileWorld ["w".toList] ["w".toList, "b".toList, "x".toList] "inside".toList).BeneathBase
+    "b".toList "inside".toList := by
+  obtain ⟨x, hx, hb⟩ := C17_model "b".toList none
+    [(oneFileWorld ["w".toList] ["w".toList, "b".toList, "x".toList] "inside".toList, .one .includeStmt "x".toList "p".toList)]
+    "inside".toList (by decide)
+  simp only [List.mem_singleton] at hx
+  subst hx
+  exact hb
+
+/-! ### from the model to the code: the gap, by name -/
+
+/-- the real engine's template fetching as a black box: some state, how it is set up from a
+    base directory and a callback, and what a request answers -/
+structure Impl where
+  St : Type
+  init : Str → Option JoinCb → St
+  serve : St → Snapshot → Req → LoadResult × St
+
+def Impl.run (I : Impl) (st : I.St) : List (Snapshot × Req) → List LoadResult
+  | [] => []
+  | (fs, r) :: rest => (I.serve st fs r).1 :: I.run (I.serve st fs r).2 rest
+
+/-- GAP 1 — **the code answers as the model does**: there is a reading of the code's state as a
+    model `Engine` (configured base, store, callback) under which set-up and every request agree.
+    NOT proved about the Rust code.  Tied by regenerated tables: the segment rules
+    (`safe_join_rules_from_source`), the loop's shape (`safe_join_loop_shape`), `path_loader`'s
+    shape (`loader_model_matches_source`), the routes (`name_flow_as_modelled`,
+    `entry_sites_covered`), no other file-system code (`path_producers_as_modelled`).  Validated
+    by the correspondence streams (`sj`, `ld`, `lc`, `tl`, `rt`, `tr`). -/
+def AnswersAsModel (I : Impl) : Prop :=
+  ∃ abs : I.St → Engine, (∀ dir cb, abs (I.init dir cb) = Engine.new dir cb) ∧
+    ∀ st fs r, (I.serve st fs r).1 = ((abs st).serve fs r).1 ∧
+      abs (I.serve st fs r).2 = ((abs st).serve fs r).2
+
+/-- GAP 2 — **the operating system resolves a path component by component on a tree**: the
+    file-system answers of the history are those of worlds without symbolic links
+    (`World.snapshot`; Unix flavour: `comps`, `isAbs` — the transcription of std's
+    `Path::components` validated byte for byte by the `comps`/`push` streams).  Validated on a
+    real tree by the canary oracle and at system-call level (`tr` stream). -/
+def OsWalksTree (h : List (Snapshot × Req)) (ws : List (World × Req)) : Prop :=
+  h = ws.map fun x => (x.1.snapshot, x.2)
+
+theorem impl_run_eq (I : Impl) (abs : I.St → Engine)
+    (hstep : ∀ st fs r, (I.serve st fs r).1 = ((abs st).serve fs r).1 ∧
+      abs (I.serve st fs r).2 = ((abs st).serve fs r).2)
+    (h : List (Snapshot × Req)) (st : I.St) : I.run st h = (abs st).run h := by
+  induction h generalizing st with
+  | nil => rfl
+  | cons x rest ih =>
+    obtain ⟨fs, r⟩ := x
+    simp only [Impl.run, Engine.run]
+    rw [(hstep st fs r).1, ih, (hstep st fs r).2]
+
+/-- **C17_main**: for ANY implementation that answers as the model does (gap 1), on any history
+    whose file-system answers are those of link-free worlds (gap 2), every source it answers is
+    the content of a file in or beneath the directory its configured base designated in one of
+    those worlds.  The two hypotheses are exactly what is not machine-checked about the code. -/
+theorem C17_main (I : Impl) (gap1 : AnswersAsModel I)
+    (dir : Str) (cb : Option JoinCb) (h : List (Snapshot × Req)) (ws : List (World × Req))
+    (gap2 : OsWalksTree h ws) (s : Str) (hs : LoadResult.found s ∈ I.run (I.init dir cb) h) :
+    ∃ x ∈ ws, x.1.BeneathBase dir s := by
+  obtain ⟨abs, hinit, hstep⟩ := gap1
+  rw [impl_run_eq I abs hstep, hinit, gap2] at hs
+  exact C17_model dir cb ws s hs
+
+/-- the model itself is an implementation that answers as the model does -/
+def modelImpl : Impl := ⟨Engine, Engine.new, Engine.serve⟩
+example : AnswersAsModel modelImpl := ⟨id, fun _ _ => rfl, fun _ _ _ => ⟨rfl, rfl⟩⟩
+/-- … and one that serves the unfiltered name does not (the hypothesis is not vacuous) -/
+example : ¬ AnswersAsModel ⟨Unit, fun _ _ => (), fun _ fs r =>
+    (match r with | .one _ n _ => (match fs n with | .content s => .found s | _ => .missing) | _ => .missing, ())⟩ := by
+  intro ⟨abs, hinit, hstep⟩
+  have h := (hstep () (oneFile "../x".toList "canary".toList) (.one .envGetTemplate "../x".toList [])).1
+  have hi := hinit "b".toList none
+  simp only at hi
+  rw [hi] at h
+  revert h
+  decide
 
 end MJ.C17
